@@ -384,16 +384,15 @@ func (p *processor) isMatchAnd(conds MatchConditions, event *Event, byPrefix boo
 		}
 		value := node.AsString()
 
-		match := false
 		if cond.Regexp != nil {
-			match = cond.Regexp.MatchString(value)
-			if !match {
+			// a regexp condition has no value list: it is satisfied by the match alone
+			if !cond.Regexp.MatchString(value) {
 				return false
 			}
+			continue
 		}
 
-		match = cond.valueExists(value, byPrefix)
-		if !match {
+		if !cond.valueExists(value, byPrefix) {
 			return false
 		}
 	}
